@@ -417,6 +417,8 @@ class Engine(StmtMixin, EvalMixin, Interp):
 
         for t in ("object",):
             B[t] = BuiltinType(t)
+        B["slice"] = BuiltinFn("slice", lambda interp, a, k: SliceVal(*(list(a) + [None] * (3 - len(a)))) if len(a) > 1
+                               else SliceVal(None, a[0], None))
         # type names usable in isinstance / type() comparisons while also callable
         self.type_names = {"int", "str", "list", "tuple", "set", "dict", "bool", "frozenset", "float"}
         self.output = []
@@ -472,6 +474,8 @@ class Engine(StmtMixin, EvalMixin, Interp):
                 return isinstance(v, dict)
             if n == "frozenset":
                 return isinstance(v, frozenset)
+            if n == "slice":
+                return isinstance(v, SliceVal)
         if isinstance(t, ExternalRef):
             if isinstance(v, Opaque):
                 return v.attrs.get("$class") == (t.attr or t.dotted)
